@@ -4,7 +4,7 @@ order of every operator dict; handler exhaustiveness of the dispatch; left-to-ri
 discipline of the token buffers; operator/atom semantics as normal forms; unary-sign
 decision tables against the sign algebra; parenthesis-scanner decision table and cursor
 discipline; tokeniser cursor discipline. NOT decided: that these clauses compose to the
-right value for every expression, floating-point results, user-defined atoms."""
+right value for every expression, floating-point results, user-defined atoms. Also decided: every configured operator named by a step takes part in that step's pass (no further filter), and the isinstance dispatch of a pass agrees with the operator class hierarchy (no operator class derives from one listed in an earlier step)."""
 import ast
 
 from ..doctables import csv_table
